@@ -452,10 +452,10 @@ def classify(w):
 GENS = {
     "prime": Gen(case_prime, 147, 147, exhaustive=True),
     "tables": Gen(case_tables, 2, 2, exhaustive=True),
-    "cazac": Gen(case_cazac, 500, 98 * 4 + 6000),
-    "shift-orth": Gen(case_shift_orth, 400, 20000),
-    "estimator": Gen(case_estimator, 4000, 200000),
-    "ls": Gen(case_ls, 1500, 60000),
+    "cazac": Gen(case_cazac, 500, 98 * 4 + 30000),
+    "shift-orth": Gen(case_shift_orth, 400, 120000),
+    "estimator": Gen(case_estimator, 4000, 1200000),
+    "ls": Gen(case_ls, 1500, 400000),
 }
 MIN_EVALS = {"prime-selection": 4000, "cyclic-extension": 4000, "zc-formula": 3000,
              "unit-amplitude": 500, "zero-autocorrelation": 1000, "flat-spectrum": 300,
